@@ -299,6 +299,17 @@ class Gen(object):
             c += ['>i4', '>i8']
         return r.choice(c) if c else None
 
+    def recase(self, dt):
+        """The same fxp-notation dtype string in another letter case (the parser case-folds)."""
+        k = self.rng.random()
+        if k < 0.7:
+            return dt
+        if k < 0.8:
+            return dt.upper()
+        if k < 0.9:
+            return 'fxp-' + dt[4].upper() + dt[5:]
+        return 'FXP-' + dt[4:]
+
     def shape(self):
         r = self.rng
         if r.random() < 0.07:
@@ -556,7 +567,7 @@ class Gen(object):
                 op['n_int'] = op['n_int'] + r.choice([-3, -1, 1, 2, 5])
         elif r.random() < 0.1 and val is not None and 'strings' in self.p.groups:
             s, nw, nf = fmt
-            op['dtype'] = 'fxp-%s%d/%d' % ('s' if s else 'u', nw, nf)
+            op['dtype'] = self.recase('fxp-%s%d/%d' % ('s' if s else 'u', nw, nf))
         elif self.p.prop == 'C02' and r.random() < 0.08 and fmt[1] <= 24:
             # thin slice of affinely scaled objects (limits mapped through scale and bias)
             op['kw'] = dict(op['kw'], scale=r.choice([2, 0.5, 4, 0.25, 1]), bias=r.choice([0, 1, -2, 0.5, 8]))
@@ -621,7 +632,7 @@ class Gen(object):
             return op
         if r.random() < 0.25:
             if r.random() < 0.5 or fmt[1] - fmt[2] < 0:
-                op['dtype'] = 'fxp-%s%d/%d' % ('s' if fmt[0] else 'u', fmt[1], fmt[2])
+                op['dtype'] = self.recase('fxp-%s%d/%d' % ('s' if fmt[0] else 'u', fmt[1], fmt[2]))
             else:
                 op['dtype'] = '%s%d.%d' % (r.choice(['Q', 'S', 'q', 's']) if fmt[0] else r.choice(['UQ', 'U', 'QU', 'qu', 'Uq', 'u']),
                                            fmt[1] - fmt[2], fmt[2])
@@ -1299,7 +1310,7 @@ class Gen(object):
             return op
         if r.random() < dtype_p:
             if r.random() < 0.5:
-                op['dtype'] = 'fxp-%s%d/%d' % ('s' if f[0] else 'u', f[1], f[2])
+                op['dtype'] = self.recase('fxp-%s%d/%d' % ('s' if f[0] else 'u', f[1], f[2]))
             elif f[1] - f[2] >= 0:
                 op['dtype'] = '%s%d.%d' % (r.choice(['Q', 'S', 'q', 's']) if f[0] else r.choice(['UQ', 'U', 'uq', 'QU', 'qu', 'Qu', 'u']),
                                            f[1] - f[2], f[2])
